@@ -268,3 +268,20 @@ Proof.
       rewrite strip_last_nocr by exact Hcr. reflexivity. }
   split; intros; cbn [f1_readline f2_fetch]; rewrite Hr; destruct l; [congruence|reflexivity|congruence|reflexivity].
 Qed.
+
+(* a CRLF terminator takes exactly one CR: the text before it - with CRs anywhere in it, also at its
+   very end, or consisting of CRs only - is the line, unchanged *)
+Lemma crlf_takes_one_cr t X : t <> [] -> mem_byte LF t = false ->
+  read_line (t ++ CR :: LF :: X) = RLOk t X
+  /\ (forall fuel, f1_readline (S fuel) (t ++ CR :: LF :: X) = Some (Some t, X))
+  /\ (forall fuel gen, f2_fetch (S fuel) (t ++ CR :: LF :: X) gen = Some (Some t, X, S gen)).
+Proof.
+  intros Hne Hlf.
+  assert (Hr : read_line (t ++ CR :: LF :: X) = RLOk t X).
+  { rewrite (read_line_terminated_proof (t ++ CR :: LF :: X) (t ++ [CR]) X).
+    - rewrite strip_last_app. reflexivity.
+    - change (t ++ CR :: LF :: X) with (t ++ [CR] ++ LF :: X). rewrite app_assoc.
+      apply split_lf_app. rewrite mem_byte_app, Hlf. reflexivity. }
+  split; [exact Hr|].
+  split; intros; cbn [f1_readline f2_fetch]; rewrite Hr; destruct t; [congruence|reflexivity|congruence|reflexivity].
+Qed.
